@@ -19,7 +19,12 @@ Check(e) ==
       \* obs is logged as "T" / "F" / "panic" / "unstable" (first answer differs from the answer after
       \* the compiled regex was discarded and rebuilt); only "T"/"F" can be allowed
       ok == (e.obs = "T" /\ TRUE \in allowed) \/ (e.obs = "F" /\ FALSE \in allowed)
-  IN IF ok THEN TRUE
+      \* the engine holding only this rule (token index in the loop) answers like the rule's own matcher
+      engOk == e.eng = "-" \/ e.eng = e.obs
+  IN IF ok /\ engOk THEN TRUE
+     ELSE IF ok THEN PrintT(ToJson([ev |-> "MISMATCH", at |-> l, rule |-> e.rule, url |-> e.url, what |-> "index-vs-matcher",
+                         observed |-> [engine |-> e.eng, matcher |-> e.obs], allowed |-> <<[engine |-> e.obs, matcher |-> e.obs]>>,
+                         model |-> ImplMatch(pat, req), devs |-> {}]))
      ELSE PrintT(ToJson([ev |-> "MISMATCH", at |-> l, rule |-> e.rule, url |-> e.url,
                          observed |-> (IF e.obs = "T" THEN TRUE ELSE IF e.obs = "F" THEN FALSE ELSE e.obs), allowed |-> allowed,
                          model |-> ImplMatch(pat, req), devs |-> DevNames(pat, req)]))
